@@ -23,7 +23,9 @@ func init() {
 			{ID: "R01.5", Title: "frame-layout algebra: Get/Push/CreateFrame/Init and the storage address exactly offs+n / offs+size / {offs+size-n, n}", Floor: 8, Run: ruleR015},
 			{ID: "R01.6", Title: "evaluation order: sub expressions are evaluated in reference order (A before B, value before inner, try before catch, callee/receiver before arguments)", Floor: 15, Run: ruleR016},
 			{ID: "R01.7", Title: "lazily compiled boolean operators yield a Bool or an error, like their eager implementations", Floor: 2, Run: ruleR017},
+			{ID: "R13.4", Title: "map-field closures: the closure-field branch of a generated method call returns only after a function was extracted from the entry, otherwise the method is called (see C13)", Floor: 1, Run: ruleR134},
 			{ID: "R16.5", Title: "scope links ask their parent for the looked up name itself (see C16)", Floor: 5, Run: ruleR165},
+			{ID: "R16.7", Title: "the value of a let is parsed in the enclosing scope (see C16)", Floor: 2, Run: ruleR167},
 			{ID: "R01.4", Title: "captured-name agreement between parseLiteral (emitted identifier names) and AddArgs (recorded outer names)", Floor: 1, Run: ruleR014},
 			{ID: "R02.7", Title: "optimizer: subtree promotion only under the generated code's own condition (see C02)", Floor: 2, Run: ruleR027},
 			{ID: "R02.8", Title: "optimizer: first-match folding of switch nodes (see C02)", Floor: 0, Run: ruleR028},
@@ -51,6 +53,8 @@ func init() {
 			{ID: "R02.5", Title: "panic containment: optimizer code runs only inside parser2.Optimize, which recovers and restores the AST", Floor: 10, Run: ruleR025},
 			{ID: "R02.7", Title: "subtree promotion: a node is replaced by one of its children only under the condition under which the generated code returns that child's value (roles read from the generator)", Floor: 2, Run: ruleR027},
 			{ID: "R02.8", Title: "first-match folding: a folding loop over the cases of a switch takes a case only on established equality and moves on only past cases decided negative", Floor: 0, Run: ruleR028},
+			{ID: "R02.9", Title: "success of Parse/Generate does not depend on whether a node was folded: no failure of its own under a test for a *Const node", Floor: 5, Run: ruleR029},
+			{ID: "R02.10", Title: "declared purity is never upgraded: a store into IsPure/IsCommutative of an existing descriptor is a constant, the setter's parameter or a conjunction with the old value", Floor: 1, Run: ruleR0210},
 		},
 	})
 	register(&Property{
@@ -69,6 +73,7 @@ func init() {
 			{ID: "R03.7", Title: "the parser is purely constructive: grouping never depends on the node kind of an already parsed operand (parentheses are honoured)", Floor: 1, Run: ruleR037},
 			{ID: "R03.9", Title: "a consumed postfix opener always builds its node: no path accepts the brackets without a node", Floor: 3, Run: ruleR039},
 			{ID: "R04.8", Title: "input is never silently truncated: the end-of-input mark cannot be forged by a character of the input (see C04)", Floor: 1, Run: ruleR048},
+			{ID: "R10.3", Title: "a field that one function increments and decrements (a depth counter) is back at its old value on every exit of that function (package parser2; see C10)", Floor: 0, Run: ruleR103(func(p *packages.Package) bool { return p.PkgPath == modPath })},
 		},
 	})
 	register(&Property{
@@ -92,6 +97,9 @@ func init() {
 			{ID: "R04.11", Title: "a scope lookup asks its parent scope at most once on every path (no exponential name resolution)", Floor: 4, Run: ruleR0411},
 			{ID: "R04.12", Title: "Generate-time execution of program-defined code (constant closures, methods on constants) is bounded by a budget", Floor: 3, Run: ruleR0412},
 			{ID: "R04.13", Title: "no unchecked (single-value) type assertion on a value of the language in Generate-time code", Floor: 1, Run: ruleR0413},
+			{ID: "R04.15", Title: "the recursive descent hands the error of a nested parse call up unchanged (no wrapper per nesting level)", Floor: 8, Run: ruleR0415},
+			{ID: "R05.8", Title: "folding a self application terminates with a recoverable panic: the value stack bound is reached before the Go stack is exhausted (see C05)", Floor: 1, Run: ruleR058},
+			{ID: "R10.3", Title: "a field that one function increments and decrements (a depth counter) is back at its old value on every exit of that function (see C10)", Floor: 0, Run: ruleR103(nil)},
 			{ID: "R03.3", Title: "operator levels are entered in range of the operator table (see C03)", Floor: 3, Run: ruleR033},
 		},
 	})
@@ -127,6 +135,7 @@ func init() {
 			{ID: "R06.3", Title: "iterator pipelines with callbacks are constructed per iteration (inside the list producer)", Floor: 15, Run: ruleR063},
 			{ID: "R06.2", Title: "the materialisation cache of List (items, itemsPresent) is accessed under its mutex only; iterable/size are immutable after construction", Floor: 8, Run: ruleR062},
 			{ID: "R06.4", Title: "deep traversals of language values are complete: no success before the elements of a container were handed to the recursion", Floor: 2, Run: ruleR064},
+			{ID: "R05.1", Title: "a failing element fails the evaluation under every schedule: code that a combinator runs on a goroutine of its own recovers (see C05)", Floor: 5, Run: ruleR051},
 			{ID: "R10.1a", Title: "generated closures store nothing into generator (compile time) scope", Floor: 25, Run: ruleR101closures},
 			{ID: "R10.1d", Title: "closure values built by built-ins during an evaluation keep no mutable state (no store into captured variables)", Floor: 1, Run: ruleR101closureValues},
 			{ID: "R09.1", Title: "list backing slices are never written in place (see C09)", Floor: 36, Run: ruleR091},
@@ -152,6 +161,8 @@ func init() {
 			{ID: "R06.4", Title: "deep traversals of language values are complete: no success before the elements of a container were handed to the recursion", Floor: 2, Run: ruleR064},
 			{ID: "R13.1", Title: "key-domain agreement of the map storages (see C13)", Floor: 9, Run: ruleR131},
 			{ID: "R09.1", Title: "list backing slices are never written in place (see C09)", Floor: 36, Run: ruleR091},
+			{ID: "R09.2", Title: "maps are never updated in place (see C09)", Floor: 40, Run: ruleR092},
+			{ID: "R07.9", Title: "materialising a lazy list: success implies the items are present, and nothing is cached while an error of the producer is pending", Floor: 2, Run: ruleR079},
 		},
 	})
 	register(&Property{
@@ -178,6 +189,8 @@ func init() {
 			{ID: "R09.1", Title: "list backing slices: in-place writes only on own allocations; new lists not backed by reused buffers; append trims the parent; ToSlice capped, CopyToSlice fresh", Floor: 36, Run: ruleR091},
 			{ID: "R09.2", Title: "maps are never updated in place: no receiver stores; ListMap.Append / Go map stores only on maps created by the function", Floor: 40, Run: ruleR092},
 			{ID: "R09.3", Title: "language values other than List never append to a slice field of their receiver or of a shallow copy of it without capping or cloning it", Floor: 1, Run: ruleR093},
+			{ID: "R09.4", Title: "a lazy list delivers the same sequence at every traversal: no producer ranges over a Go map", Floor: 21, Run: ruleR094},
+			{ID: "R09.5", Title: "a list has no state besides its materialisation cache: no store into another field of an existing list", Floor: 4, Run: ruleR095},
 		},
 	})
 	register(&Property{
@@ -192,10 +205,12 @@ func init() {
 			{ID: "R10.1c", Title: "evaluation code stores nothing into package level variables, generator fields or shared language values", Floor: 1, Run: ruleR101effects},
 			{ID: "R10.2", Title: "every Eval creates its own stack; no generator-owned stack is used by evaluation code", Floor: 2, Run: ruleR102},
 			{ID: "R10.2b", Title: "a stack never adopts a slice it does not own: NewStack(x...) only with a slice the calling function allocated itself", Floor: 1, Run: ruleR102b},
+			{ID: "R10.3", Title: "a field that one function increments and decrements (a depth counter) is back at its old value on every exit of that function", Floor: 0, Run: ruleR103(nil)},
 			{ID: "R09.1", Title: "list backing slices are never written in place (see C09)", Floor: 36, Run: ruleR091},
 			{ID: "R09.2", Title: "maps are never updated in place (see C09)", Floor: 40, Run: ruleR092},
 			{ID: "R09.3", Title: "language values other than List never append to a slice field of their receiver or of a shallow copy of it without capping or cloning it", Floor: 1, Run: ruleR093},
 			{ID: "R01.2", Title: "closure context allocated per closure creation, slots in compile order (see C01)", Floor: 16, Run: ruleR012},
+			{ID: "R07.9", Title: "materialising a lazy list: success implies the items are present, and nothing is cached while an error of the producer is pending", Floor: 2, Run: ruleR079},
 		},
 	})
 	register(&Property{
@@ -218,6 +233,7 @@ func init() {
 			{ID: "R09.2", Title: "maps are never updated in place (see C09)", Floor: 40, Run: ruleR092},
 			{ID: "R06.1", Title: "value stacks are goroutine confined at MapAuto/FilterAuto/Merge", Floor: 3, Run: ruleR061},
 			{ID: "R06.3", Title: "iterator pipelines with callbacks are constructed per iteration", Floor: 15, Run: ruleR063},
+			{ID: "R07.9", Title: "materialising a lazy list: success implies the items are present, and nothing is cached while an error of the producer is pending", Floor: 2, Run: ruleR079},
 		},
 	})
 	register(&Property{
@@ -261,6 +277,7 @@ func init() {
 			{ID: "R14.4", Title: "one equality, one ordering: all consumers call the registered operator object; no Go == on values", Floor: 3, Run: ruleR144},
 			{ID: "R14.7", Title: "container equality compares sizes before it can report equal", Floor: 2, Run: ruleR147},
 			{ID: "R14.8", Title: "searches decide by the equality function alone: no candidate is skipped before the registered equality was asked", Floor: 2, Run: ruleR148},
+			{ID: "R14.9", Title: "comparison cells convert no float operand to an integer without a test that bounds it from both sides", Floor: 8, Run: ruleR149},
 			{ID: "R13.1", Title: "key-domain agreement of the map storages: map equality compares Size, Iter and Get (see C13)", Floor: 9, Run: ruleR131},
 			{ID: "R05.2", Title: "no use of a value before the error returned with it was compared with nil (see C05)", Floor: 20, Run: ruleR052},
 			{ID: "R02.8", Title: "first-match folding of switch nodes agrees with the run-time order of the equality tests (see C02)", Floor: 0, Run: ruleR028},
@@ -280,6 +297,7 @@ func init() {
 			{ID: "R15.7", Title: "string literals and quoted identifiers are built from runes as written, not from the alias-replacing readers", Floor: 2, Run: ruleR157},
 			{ID: "R15.8", Title: "the image of a number or identifier consists of exactly the runes the matcher accepted (aliases in their ASCII form)", Floor: 1, Run: ruleR158},
 			{ID: "R15.9", Title: "string literals are decoded once: the string converter handed to the parser wraps the decoded text as it is", Floor: 1, Run: ruleR159},
+			{ID: "R15.10", Title: "the tokenizer scans the source exactly as it was handed to Parse (nothing is trimmed or rewritten before the lines are counted)", Floor: 2, Run: ruleR1510},
 			{ID: "R03.6", Title: "implicit multiplication bookkeeping only in comfort mode (see C03)", Floor: 3, Run: ruleR036},
 		},
 	})
@@ -296,6 +314,7 @@ func init() {
 			{ID: "R16.3", Title: "closure scopes are used for the closure body only; outer names are deduplicated by the appended value", Floor: 4, Run: ruleR163},
 			{ID: "R16.4", Title: "every identifier resolved to an attribute is rewritten to a map access, whatever follows it", Floor: 2, Run: ruleR164},
 			{ID: "R16.5", Title: "scope links ask their parent for the looked up name itself (no renaming links: lexical scoping)", Floor: 5, Run: ruleR165},
+			{ID: "R16.7", Title: "the value of a let is parsed in the enclosing scope: only the inner expression sees the new name", Floor: 2, Run: ruleR167},
 			{ID: "R01.3", Title: "scope recording of closure literals (see C01)", Floor: 3, Run: ruleR013},
 		},
 	})
@@ -329,6 +348,7 @@ func init() {
 			{ID: "R18.5", Title: "ToHtml recovers panics into its error result", Floor: 1, Run: ruleR185},
 			{ID: "R18.6", Title: "the XML name validator accepts only XML name characters (value-set analysis of its condition over all code points)", Floor: 1, Run: ruleR186},
 			{ID: "R18.7", Title: "attribute form or element form of a map is decided per map (a field of the exporter), never per entry: the XML writer drops attributes that follow a child", Floor: 1, Run: ruleR187},
+			{ID: "R10.3", Title: "a field that one function increments and decrements (a depth counter) is back at its old value on every exit of that function (value/export; see C10)", Floor: 0, Run: ruleR103(func(p *packages.Package) bool { return strings.HasPrefix(p.PkgPath, modPath+"/value/export") })},
 			{ID: "R07.8", Title: "errors are not swallowed: no success return is reached from the non-nil branch of an error test without the error being used", Floor: 1, Run: ruleR078},
 			{ID: "R17.5", Title: "nothing that is handed back to a sync.Pool is returned (no result refers to pooled memory)", Floor: 0, Run: ruleR175},
 			{ID: "R07.2", Title: "stores into fields of a value receiver are not lost: exporter state survives Add (see C07)", Floor: 0, Run: ruleR072},
@@ -354,6 +374,7 @@ func init() {
 			{ID: "R02.7", Title: "subtree promotion only under the generated code's own condition (see C02)", Floor: 2, Run: ruleR027},
 			{ID: "R02.8", Title: "first-match folding of switch nodes (see C02)", Floor: 0, Run: ruleR028},
 			{ID: "R10.2b", Title: "a stack never adopts a slice it does not own (see C10)", Floor: 1, Run: ruleR102b},
+			{ID: "R10.3", Title: "a field that one function increments and decrements (a depth counter) is back at its old value on every exit of that function (see C10)", Floor: 0, Run: ruleR103(nil)},
 			{ID: "R03.1", Title: "one recursion level per operator (see C03)", Floor: 3, Run: ruleR031},
 			{ID: "R03.2", Title: "left associative accumulation loop (see C03)", Floor: 7, Run: ruleR032},
 			{ID: "R03.3", Title: "prefix operators (see C03)", Floor: 3, Run: ruleR033},
